@@ -88,6 +88,8 @@ def entry_body(w, b):
                 return False
             if is_recursive(w, cb):
                 return False          # recursive (the cover search)
+            if cb.locals[0]['ty']['s'] == 'std::string::String' and cb.arg_count == 1 and cb.locals[1]['ty']['s'].replace("'_ ", '').replace("'a ", '') in ('&str', '&std::string::String'):
+                return False          # a text -> text function (the post-processor of the rendered text): a unit of its own for C10 / C11
             return True
         _ENTRY_CACHE[key] = inline.inline_body(w, b, pred)
     return _ENTRY_CACHE[key]
@@ -693,7 +695,7 @@ def axiom_table():
          'inner_nodes[1..len-1] with len >= 2 (MathDelimited has opening and closing delimiter children)'),
         (r'^pretty::layout::plain::\{impl\}::process_iterable\|overflow:Add\|field:typstyle_core::config::Config\.blank_lines_upper_bound',
          'blank_lines_upper_bound + 1: the bound is a small configuration constant (the CLI never sets it; library default 2)'),
-        (r'^pretty::import::\{impl\}::convert_import\|index\|index\|',
+        (r'^pretty::import::\{impl\}::convert_import\|(index\|index|split\|split_at)\|',
          'nodes[divider_index..] / nodes[..divider_index(-1)] with divider_index = position(..).unwrap_or(nodes.len()) <= len'),
         (r'^ext::\{impl\}::count_linebreaks\|overflow:Sub\|',
          '(number of line-break characters) - (number of CR LF pairs): every pair contributes two characters to the first count, so the difference is >= 0 '
